@@ -147,12 +147,15 @@ def _quote_machine(t: Func):
     """Shape of a character-level splitter with a quote state."""
     loops = [n for n in ast.walk(t.node) if isinstance(n, ast.For)]
     if not loops:
-        return False, "no character loop"
+        # another way of writing the splitter (index arithmetic, str.find, a regular
+        # expression) is not understood - that is exit 2, not a finding
+        raise AnalysisError(f"{t.qualname}: no character loop; splitter idiom not recognised")
     lp = loops[0]
     ch = lp.target.id if isinstance(lp.target, ast.Name) else None
     top = [s for s in lp.body if isinstance(s, ast.If)]
     if not top or ch is None:
-        return False, "no state dispatch"
+        raise AnalysisError(f"{t.qualname}: no state dispatch on the character; splitter idiom "
+                            f"not recognised")
     node = top[0]
     chain = []
     while isinstance(node, ast.If):
@@ -168,7 +171,8 @@ def _quote_machine(t: Func):
             and first.comparators[0].value is None and isinstance(first.left, ast.Name):
         qvar = first.left.id
     if qvar is None:
-        return False, f"first branch is not the in-quote state ({tests[:1]})"
+        raise AnalysisError(f"{t.qualname}: first branch is not the in-quote state ({tests[:1]}); "
+                            f"splitter idiom not recognised")
     inq = ast.unparse(chain[0])
     closes = f"{ch} == {qvar}" in inq and f"{qvar} = None" in inq
     no_split_in_quote = "isspace" not in "\n".join(ast.unparse(s) for s in chain[0].body)
